@@ -7,6 +7,7 @@
 import Props.Tables
 import Proofs.Value
 import Jmes.Interp
+import Proofs.GenIndex
 namespace Jmes.Props
 open Jmes Jmes.Interp
 
@@ -30,6 +31,15 @@ theorem C07_false_like_values (v : Val N) :
   | obj kvs => cases kvs <;> simp [Val.isFalse]
 
 theorem C07_numbers_are_true_like (n : N) : (Val.num n).isFalse = false := rfl
+
+/-- ON THE CODE AS WRITTEN: `GenSlice.isFalse` is util.go's `isFalse` on decoded JSON, translated from /repo's
+    source on every run (tools/gotolean: the clauses of its type switch; a float64 falls through both switches to
+    `return false`).  It is false-like on exactly the five values of the truth definition. -/
+theorem C07_translated_isFalse (v : Val N) :
+    GenSlice.isFalse v = true ↔ (v = .null ∨ v = .bool false ∨ v = .str [] ∨ v = .arr [] ∨ v = .obj []) := by
+  rw [gen_isFalse_eq]; exact C07_false_like_values v
+
+theorem C07_translated_isFalse_is_the_models (v : Val N) : GenSlice.isFalse v = v.isFalse := gen_isFalse_eq v
 
 /-- `a || b`: the value of `a` when it is true-like — whatever `b` is, even an
     expression that would fail: `b` is not evaluated — and otherwise the
